@@ -229,7 +229,70 @@ def body_path(desc, F, *args):
     return None
 
 
-BODIES = {"path": body_path}
+def body_sparql_path(desc, F, *args):
+    """the same relation through a SPARQL triple pattern with the path (rdflib's parser/translator produce the path object);
+    nodes and given ends are symbolic IRIs or symbolic integer literals (kind by shape), so that literal end points, literal
+    intermediate nodes and the falsy literal occur"""
+    from rdflib import Variable
+    from rdflib.plugins.sparql.evaluate import evalQuery
+    from . import c04, c15
+    from .. import sparqlref as R
+    KNOWN_NEG_INV[0] = bool(desc.get("model_known_neg_inv"))
+    mk = F.lit if desc["kind"] == "L" else F.iri
+    g = CountingGraph()
+    edges = []
+    i = 0
+    for pn in desc["edges"]:
+        s, o = mk(args[i]), mk(args[i + 1])
+        i += 2
+        g.add((s, PRED[pn], o))
+        if not tin((s, pn, o), edges):
+            edges.append((s, pn, o))
+    x = y = None
+    consts = []
+    if desc["ends"][0] == "b":
+        x = mk(args[i])
+        i += 1
+        consts.append(x)
+    if desc["ends"][1] == "b":
+        y = mk(args[i])
+        i += 1
+        consts.append(y)
+    ast = desc["path"]
+    st = "<%s>" % (R.PLACEHOLDER % 0) if x is not None else "?s"
+    ot = "<%s>" % (R.PLACEHOLDER % (1 if x is not None else 0)) if y is not None else "?o"
+    proj = " ".join(v for v, t in (("?s", x), ("?o", y)) if t is None) or "*"
+    text = "SELECT %s WHERE { %s %s %s }" % (proj, st, c15._path_text(ast), ot)
+    q = c04.prepare(text, consts)
+    nodes = [n[0] for n in dedup([(s,) for s, _, o in edges] + [(o,) for s, _, o in edges])]
+    given = [t for t in (x, y) if t is not None]
+    uni_hi = [n[0] for n in dedup([(n,) for n in nodes + given])]
+    steps = 2 * len(edges) + 2
+    hi = restrict(rel(ast, edges, uni_hi, steps), x, y)
+    lo_rel = rel(ast, edges, nodes, steps)
+    if ast[0] == "mul" and ast[2] in "*?":
+        lo_rel = union(lo_rel, [(t, t) for t in given])
+    lo = restrict(lo_rel, x, y)
+    g.budget = 800
+    try:
+        res = evalQuery(g, q)
+        got = []
+        for b in res["bindings"]:
+            sv = x if x is not None else b[Variable("s")]
+            ov = y if y is not None else b[Variable("o")]
+            got.append((sv, ov))
+    except Diverged:
+        return "SPARQL evaluation of %s does not terminate" % show(ast)
+    for pr in got:
+        if not tin(pr, hi):
+            return "SPARQL: %s produced a pair outside the relation (ends %s)" % (show(ast), desc["ends"])
+    for pr in lo:
+        if not tin(pr, got):
+            return "SPARQL: %s misses a pair of the relation (ends %s)" % (show(ast), desc["ends"])
+    return None
+
+
+BODIES = {"path": body_path, "sparql-path": body_sparql_path}
 
 P, Q = ["iri", "p"], ["iri", "q"]
 DEPTH1 = [P, ["inv", P], ["seq", P, Q], ["seq", P, P], ["alt", P, Q], ["mul", P, "*"], ["mul", P, "+"], ["mul", P, "?"],
@@ -295,6 +358,15 @@ def obligations(tier, seed):
                     apis = API[ends] if (tier == "thorough" or n == 2) else ["triples"]
                     for api in apis[:1] if n == 3 else apis:
                         add(ast, es, ends, api, 150 if n < 3 else 900)
+    # the SPARQL route (parser -> translatePath -> evalBGP), symbolic IRIs and symbolic integer literals as nodes/ends
+    for ast in DEPTH1:
+        for kind in ("I", "L"):
+            for es in edge_shapes(ast, 2)[: 1 if tier == "quick" else 3]:
+                for ends in ENDS:
+                    nsym = 2 * len(es) + ends.count("b")
+                    obs.append(dict(oid="sparql-path/%s/%s/%s/%s" % (show(ast), "".join(es), ends, kind), family="sparql-path",
+                                    desc={"path": ast, "edges": es, "ends": ends, "kind": kind},
+                                    sig=[("x%d" % i, "i") for i in range(nsym)], budget=300))
     d2 = depth2()
     if tier == "quick":
         sel = rnd.sample(d2, 24)
@@ -322,7 +394,9 @@ def bounds(tier):
                     "edge end points and bound terms symbolic (incl. falsy, incl. terms absent from the graph)"
                     % ("" if tier == "quick" else " (n=3 sampled)", "24 seeded of %d" % len(depth2()) if tier == "quick" else "all %d" % len(depth2()),
                        "" if tier == "quick" else " and 30 with n=3"),
-            "outside": "paths through SPARQL text (covered under C15/C04 catalogues), n>3 edges, depth>2, ConjunctiveGraph/ReadOnlyGraphAggregate as the evaluated graph"}
+            "sparql-path": "the 12 depth<=1 expressions as SPARQL triple patterns (text -> rdflib parser -> translatePath -> evalBGP), n=2 edges, "
+                           "4 end combinations (given ends as constants), nodes/ends symbolic IRIs and symbolic integer literals",
+            "outside": "n>3 edges, depth>2, ConjunctiveGraph/ReadOnlyGraphAggregate as the evaluated graph"}
 
 
 def _has_neg_inv(ast):
@@ -333,7 +407,7 @@ def _has_neg_inv(ast):
 
 def finding_key(ob, cex, reason):
     if ob["desc"].get("model_known_neg_inv"):
-        return "path|residual|%s" % reason
+        return "path|residual|%s" % reason.replace("SPARQL: ", "")
     if _has_neg_inv(ob["desc"]["path"]):
         return "path|negated-set-with-inverse-member"
     return "path|%s" % reason
